@@ -20,7 +20,7 @@ func vhName(tag string) string {
 }
 
 func vhHash(tag string) HashObj {
-	return HashObj{"sha256": vPick(tag, "11", "22")}
+	return HashObj{vPick(tag+".alg", "sha256", "sha512"): vPick(tag, "11", "22")}
 }
 
 func vhArtifacts(tag string, n int) map[string]HashObj {
